@@ -120,7 +120,13 @@ class SnippetMonitor:
         mo = monitors.meta_of(out)
         for k in ("rate", "fc", "bw", "align", "pol", "meta", "dtype", "dask"):
             if k in m and m[k] != mo.get(k):
+                if k == "dtype" and np.dtype(m[k]).kind in "iub" and te != math.floor(te) and np.dtype(mo[k]).kind == "f":
+                    continue        # integer samples interpolated at a fractional offset are no longer integers
                 ctx.violation(o, f"snippet changed {k}: {m[k]!r} -> {mo.get(k)!r}", None, dict(feats, what="meta_" + k))
+        near_whole = abs(te - round(te)) <= max(slack * 4, F(1, 10 ** 9))     # a grid instant written as a time: either path is right
+        if np.dtype(m["dtype"]).kind in "iub" and not near_whole and np.dtype(mo["dtype"]).kind in "iub" and n_i > 0:
+            ctx.violation(o, f"snippet at a fractional offset of {m['dtype']} data returned {mo['dtype']} samples: the interpolated values "
+                             "were rounded back to integers", None, dict(feats, what="int_truncation"))
         if tuple(mo["shape"][1:]) != tuple(m["shape"][1:]):
             ctx.violation(o, "snippet changed the sample shape", None, dict(feats, what="shape"))
             return
@@ -196,6 +202,8 @@ def wl_snippet(ctx, idx, rng):
         dtype = np.complex64
     if clsname == "Signal" and rng.random() < 0.5:
         dtype = gen.pick(rng, [np.complex128, np.complex64])
+    elif clsname == "Signal" and rng.random() < 0.3:
+        dtype = gen.pick(rng, [np.int16, np.int8, np.int32, np.uint8])      # raw integer counts
     start = gen.rand_time(rng, p_none=0.3 if form != 2 else 0.0)
     rate = gen.rand_rate(rng, lo=0, hi=6.5 if form else 9.0)
     sig, desc = gen.make_signal(rng, clsname, N, dtype=dtype, rate=rate, start=start, dask=use_dask,
